@@ -163,6 +163,11 @@ JOBS = [
     Job('Geocentric.Rotation', 'Geocentric::Rotation', ['C07', 'C13', 'C14'], description='rotation matrix: frame and copied entries'),
     Job('Geocentric.IntReverse', 'Geocentric::IntReverse', ['C07', 'C13', 'C14'], replace=['Math::atan2d', 'Geocentric::Rotation'], timeout=900, sat='cadical',
         description='geocentric -> geodetic: ranges of latitude and longitude, frame, optional matrix pointer'),
+    Job('GeodesicLineExact.GenPosition', 'GeodesicLineExact::GenPosition', ['C12', 'C01', 'C13', 'C14'], const_classes=['<GeodesicExact'], timeout=900, sat='cadical',
+        replace=['Math::sincosd', 'Math::atan2d', ('Math::AngNormalize', dict(ghost=False)), 'EllipticFunction::deltaE', 'EllipticFunction::deltaEinv',
+                 'EllipticFunction::deltaD', 'EllipticFunction::deltaH', 'EllipticFunction::Delta', ('DST::integral', dict(arity=4))],
+        inline=['GeodesicLineExact::Init'], rewrites=[(r'_cC4a\.data\(\)', r'_cC4a.p')], unwind=66,
+        description='position on a geodesic line (elliptic integrals): output-mask frame, NaN rule, ranges'),
 ]
 
 
